@@ -43,6 +43,22 @@ Theorem C12_pipeline_step_advances : forall W cap early ls s l s', run W cap ear
   exists c r, unanswered (rs s c r) = true /\ rank (rs s c r) < rank (rs s' c r).
 Proof. exact ShutdownProofs.c12_pipeline_advances. Qed.
 
+(* the pipeline work of any run is bounded by the requests sent: at most 6 pipeline steps per request that ever
+   left the client (L is any list covering the requests that are not Fresh) ... *)
+Theorem C12_pipeline_work_bounded : forall W cap early ls s (L : list req),
+  run W cap early init ls = Some s ->
+  (forall c r, rs s c r <> Fresh -> In (c, r) L) ->
+  count_pipeline ls <= rank_sum s L /\ rank_sum s L <= 6 * length L.
+Proof. exact ShutdownProofs.pipeline_work_bounded. Qed.
+
+(* ... and the drain can always complete: from every reachable live state of the repaired code, in every shutdown
+   phase and for every pool size, pipeline steps alone lead to a state with nothing read left unanswered *)
+Theorem C12_can_always_drain : forall W cap, (0 < cap)%N -> forall ls s, run W cap false init ls = Some s ->
+  alive (ph s) = true ->
+  exists ls' s', Forall pipeline_label ls' /\ run W cap false s ls' = Some s' /\
+                 ph s' = ph s /\ forall c r, unanswered (rs s' c r) = false.
+Proof. exact ShutdownProofs.can_always_drain. Qed.
+
 (* The code before the fix violates clause 2 with a pool: after this run request (0,1) is read and queued, and on
    EVERY continuation it stays queued, its connection is never closed by the server and Shutdown never returns
    drained (only its context ends it). Replayed on the unrepaired code by the harness scenario recorded in
@@ -107,6 +123,8 @@ Print Assumptions C12_close_step.
 Print Assumptions C12_read_requests_progress.
 Print Assumptions C12_rank_monotone.
 Print Assumptions C12_pipeline_step_advances.
+Print Assumptions C12_pipeline_work_bounded.
+Print Assumptions C12_can_always_drain.
 Print Assumptions C12_progress_refuted_before_fix.
 Print Assumptions C12_notification_partial.
 Print Assumptions C12_notification_refuted.
